@@ -1,0 +1,11 @@
+//go:build !verif
+
+// Package verifhook: step-boundary hooks for the runtime verification harness. With the build tag "verif" off
+// (the default) both functions are empty and inlined away.
+package verifhook
+
+import "context"
+
+func Yield(context.Context, string) {}
+
+func Block(context.Context, string) {}
